@@ -4,9 +4,10 @@ import (
 	"fmt"
 	"sync"
 	"testing"
+	"time"
 
-	"github.com/openkruise/rollouts/pkg/util/grace"
 	expectations "github.com/openkruise/rollouts/pkg/util/expectation"
+	"github.com/openkruise/rollouts/pkg/util/grace"
 	"github.com/openkruise/rollouts/pkg/util/luamanager"
 	"k8s.io/apimachinery/pkg/apis/meta/v1/unstructured"
 	"pgregory.net/rapid"
@@ -123,6 +124,14 @@ func TestC19HelperHammer(t *testing.T) {
 			for i := 0; i < 300; i++ {
 				key := fmt.Sprintf("ns%d/name%d", g%3, i%5)
 				_, _, _ = grace.RunWithGraceSeconds(key, "act", int32(i%2), func() (bool, error) { return i%3 == 0, nil })
+				// the post-grace path: an expectation is recorded, time passes (verif hook), and the
+				// next call finds the grace period over while other workers use other keys
+				if i%4 == 0 {
+					own := fmt.Sprintf("ns%d/own-%d", g, i%7)
+					_, _, _ = grace.RunWithGraceSeconds(own, "act", 1, func() (bool, error) { return true, nil })
+					grace.ShiftForVerif(2 * time.Second)
+					_, _, _ = grace.RunWithGraceSeconds(own, "act", 1, func() (bool, error) { return false, nil })
+				}
 				expectations.ResourceExpectations.Expect(key, expectations.Create, fmt.Sprintf("uid-%d-%d", g, i))
 				expectations.ResourceExpectations.Observe(key, expectations.Create, fmt.Sprintf("uid-%d-%d", g, i))
 				_, _, _ = expectations.ResourceExpectations.SatisfiedExpectations(key)
@@ -136,5 +145,5 @@ func TestC19HelperHammer(t *testing.T) {
 		}(g)
 	}
 	wg.Wait()
-	vlib.RecordBulk(chk, 16*300, 16, false, []any{"16 goroutines x 300 iterations over grace.RunWithGraceSeconds, ResourceExpectations.Expect/Observe/SatisfiedExpectations and LuaManager.RunLuaScript with overlapping keys"})
+	vlib.RecordBulk(chk, 16*300, 16, false, []any{"16 goroutines x 300 iterations over grace.RunWithGraceSeconds (including elapsed grace periods via the verif time hook), ResourceExpectations.Expect/Observe/SatisfiedExpectations and LuaManager.RunLuaScript with overlapping keys"})
 }
